@@ -8,7 +8,7 @@ Open Scope N_scope.
 (* Request::close from the point where writeable() has been settled: every way it can end. *)
 Definition close_tail_post (maxc : N) (r1 : rstate) (disc code : N) (w1 : world) (x : res (parser + N)) : Prop :=
   exists p2, set_stream (rsp r1) None = SetOk p2 /\
-  match record_boundary maxc (mkR p2 (rwriteable r1) (rlock r1)) w1 with
+  match record_boundary maxc (mkR p2 (rwriteable r1) (rlock r1) (raborted r1)) w1 with
   | Halt o w2 => x = Halt o w2
   | Ok (Some k, _) w2 => x = Ok (inr k) w2 /\ wlog w2 = wlog w1 /\ In k rb_kinds
   | Ok (None, r3) w2 =>
@@ -25,7 +25,7 @@ Theorem close_tail_cases maxc r1 disc code w1 :
 Proof.
   intros [p2 Hs]. unfold close_tail_post. exists p2. split; [exact Hs|].
   rewrite close_tail_unfold, Hs.
-  destruct (record_boundary maxc (mkR p2 (rwriteable r1) (rlock r1)) w1) as [[[k2|] r3] w2|o w2] eqn:ERB.
+  destruct (record_boundary maxc (mkR p2 (rwriteable r1) (rlock r1) (raborted r1)) w1) as [[[k2|] r3] w2|o w2] eqn:ERB.
   - pose proof (record_boundary_spec _ _ _ _ _ _ ERB) as (B1 & _ & _ & _ & B5). tauto.
   - pose proof (record_boundary_spec _ _ _ _ _ _ ERB) as (B1 & B2 & B3 & B4 & B5).
     cbn [rwriteable rlock] in B3, B4. split; [exact B1|]. split; [exact B3|]. split; [exact B5|].
@@ -48,7 +48,7 @@ Proof. apply close_tail_cases. apply set_stream_none_ok. Qed.
 Theorem close_reuse_iff maxc r1 disc code w1 x w' p2 r3 w2 ep :
   close_tail maxc r1 disc code w1 = Ok x w' ->
   set_stream (rsp r1) None = SetOk p2 ->
-  record_boundary maxc (mkR p2 (rwriteable r1) (rlock r1)) w1 = Ok (None, r3) w2 ->
+  record_boundary maxc (mkR p2 (rwriteable r1) (rlock r1) (raborted r1)) w1 = Ok (None, r3) w2 ->
   epilogue (r_id (sreq (rsp r3))) disc code (if rwriteable r1 then ROLE_OUTPUT_STREAMS else []) = Some ep ->
   let total := output_buffer (rsp r3) ++ ep in
   let keep := N.land (r_flags (sreq (rsp r3))) FLAG_KeepConn = FLAG_KeepConn in
@@ -56,7 +56,7 @@ Theorem close_reuse_iff maxc r1 disc code w1 x w' p2 r3 w2 ep :
   | inl rp => wlog w' = wlog w1 ++ total /\ keep /\ into_request_parser (close_p4 r3) = ConvOk rp
   | inr k =>
       (wlog w' = wlog w1 ++ total /\ k = EK_Reset /\ ~ keep) \/
-      ((k = EK_WriteZero \/ k = EK_Transport) /\ ~ no_fault (wscript w2) /\
+      ((k = EK_WriteZero \/ k = EK_Transport \/ k = EK_Aborted) /\ ~ no_fault (wscript w2) /\
        exists b1 b2, total = b1 ++ b2 /\ b2 <> [] /\ wlog w' = wlog w1 ++ b1)
   end.
 Proof.
